@@ -68,6 +68,11 @@ pub fn full_alphabet() -> Vec<(String, Sym)> {
         for (label, h) in nonquery_hex() {
             v.push((format!("{label} src{src}"), vec![(src, format!("raw {h}"))]));
         }
+        // the socket reports a receive error (queued ICMP error, interrupted call); the queries after it
+        // are queries like any other
+        for kind in ["ConnectionReset", "ConnectionRefused", "Interrupted", "Other"] {
+            v.push((format!("recv error {kind} then ping and get_peers src{src}"), vec![(src, format!("recverr {kind}")), (src, "ping".to_string()), (src, "gp 1 -".to_string())]));
+        }
     }
     v
 }
@@ -96,6 +101,7 @@ pub fn reduced_alphabet() -> Vec<(String, Sym)> {
     for (label, h) in nonquery_hex() {
         v.push((format!("{label} a"), vec![(0, format!("raw {h}"))]));
     }
+    v.push(("recv error ConnectionReset".into(), vec![(0, "recverr ConnectionReset".into())]));
     v
 }
 
@@ -123,6 +129,10 @@ pub fn run_sequence_at(cfg: &NodeCfg, seq: &[&Sym], rng_seed: u64, offset_ms: u6
     let mut t = b.ready_ms + 100 + offset_ms;
     for sym in seq {
         for (k, (client, cmd)) in sym.iter().enumerate() {
+            if let Some(kind) = cmd.strip_prefix("recverr ") {
+                b.sc.actions.push((When::At(t + 20 * k as u64), Action::RecvError { node: 0, kind: kind.to_string() }));
+                continue;
+            }
             b.sc.actions.push((When::At(t + 20 * k as u64), Action::PeerCommand { peer: single::client_addr(*client), cmd: cmd.clone() }));
         }
         t += 100;
